@@ -203,11 +203,11 @@ Definition reopen_at (t : aht) (centries : N) : res aht :=
   if lenN (dlog t) <? nodes_upto centries then Err ECorruptedDigests else
   Ok (mkAht (plog t) (dlog t) centries (nodes_upto centries)).
 
-Record run2 := mkRun { tree : aht; centries : N; dirty : bool }.
+Record run2 := mkRun { rtree : aht; centries : N; dirty : bool }.
 
 (* sync(): with a buffered append the file is cut at latestSyncedNode and extended to `size` *)
 Definition sync2 (s : run2) : run2 :=
-  if dirty s then mkRun (tree s) (size (tree s)) false else s.
+  if dirty s then mkRun (rtree s) (size (rtree s)) false else s.
 
 (* A2 = Append, R2 = ResetSize, Reopen2 = Close + Open,
    Crash2 c = Close, then Open on a COPY whose commit log was cut to c entries while the payload
@@ -217,22 +217,22 @@ Inductive aop2 := A2 (d : bytes) | R2 (k : N) | Reopen2 | Crash2 (c : N).
 
 Definition aht_step2 (s : run2) (o : aop2) : run2 :=
   match o with
-  | A2 d => match append (tree s) d with
+  | A2 d => match append (rtree s) d with
             | Ok (t', _) => mkRun t' (centries s) true
             | _ => s
             end
   | R2 k =>
       (* size < k: error; size = k: nothing, both before sync() *)
-      if size (tree s) <=? k then s else
+      if size (rtree s) <=? k then s else
       let s' := sync2 s in
-      match reset_size (tree s') k with Ok t' => mkRun t' (centries s') false | _ => s' end
+      match reset_size (rtree s') k with Ok t' => mkRun t' (centries s') false | _ => s' end
   | Reopen2 =>
       let s' := sync2 s in
-      match reopen_at (tree s') (centries s') with Ok t' => mkRun t' (centries s') false | _ => s' end
+      match reopen_at (rtree s') (centries s') with Ok t' => mkRun t' (centries s') false | _ => s' end
   | Crash2 c =>
       let s' := sync2 s in
       if centries s' <? c then s' else
-      match reopen_at (tree s') c with Ok t' => mkRun t' c false | _ => s' end
+      match reopen_at (rtree s') c with Ok t' => mkRun t' c false | _ => s' end
   end.
 
 Definition aht_run2 (ops : list aop2) : run2 := fold_left aht_step2 ops (mkRun aht_empty 0 false).
